@@ -154,14 +154,22 @@ def run_check(prop_id, tier):
     repo.activate()
     infra_error = None
     try:
-        # 1. translators
-        try:
-            if hasattr(mod, 'translate'):
-                mod.translate(ctx)
-        except TieBroken as e:
-            ctx.broken.append(('translator', str(e)))
-        # 2./3. build + audit
-        _lean_phase(ctx, mod)
+        with lean.Lock():
+            # 1. translators
+            try:
+                if hasattr(mod, 'translate'):
+                    mod.translate(ctx)
+            except TieBroken as e:
+                ctx.broken.append(('translator', str(e)))
+            # 2./3. build + audit
+            _lean_phase(ctx, mod)
+            # start the drivers while the generated files are still ours
+            for t in getattr(mod, 'TARGETS', []):
+                if t.startswith('drv_'):
+                    try:
+                        ctx.driver(t)
+                    except lean.LeanError as e:
+                        ctx.broken.append(('driver', e.what))
         # 4./5. correspondence and always-on spec run
         try:
             mod.run(ctx)
@@ -194,7 +202,7 @@ def run_check(prop_id, tier):
     for sig, k in sorted(seen_known.items()):
         lines.append('KNOWN-FINDING: property=%s %s' % (prop_id, k.get('what', sig)))
     n = 0
-    for v in reported:
+    for v in reported[:8]:
         n += 1
         rel = _write_replay(ctx, n, {'kind': 'failing-input', 'violation': v})
         lines.append('VIOLATION property=%s replay=%s' % (prop_id, rel))
